@@ -130,11 +130,15 @@ Do(s) ==
                          IF cfg.kind = "text" THEN w ELSE 0>> IN
             /\ width' = w
             /\ ev' = [res |-> R(0, "", "", IF on THEN <<rec>> ELSE <<>>, <<>>, Named(s.how) /\ s.lvl = 6), st |-> St(lg, hk)] @@ s
-    [] s.op = "Shutdown" ->    \* lg[s.i].Shutdown()
-         /\ s.i <= Len(lg) /\ UNCHANGED <<cfg, cnt, hk, width>>
+    [] s.op = "Shutdown" ->    \* lg[s.i].Shutdown(); before the first Shutdown of a root with the text handler the binding logs a
+                               \* last record "bye" through the root at PANIC level: it must have been written when Shutdown returns
+         /\ s.i <= Len(lg) /\ UNCHANGED <<cfg, cnt, hk>>
          /\ lg' = IF s.i > 1 /\ ~IsNil THEN [lg EXCEPT ![s.i][5] = FALSE] ELSE lg
          /\ shut' = (shut \/ (s.i = 1 /\ cfg.kind = "text"))     \* (the other handlers have nothing to shut down)
-         /\ ev' = [res |-> Plain(<<>>), st |-> St(lg', hk)] @@ s
+         /\ LET flush == s.i = 1 /\ cfg.kind = "text" /\ ~shut
+                w == IF flush THEN Mx(width, Len(lg[1][3])) ELSE width IN
+            /\ width' = w
+            /\ ev' = [res |-> R(0, "", "", IF flush THEN <<<<"PANIC", lg[1][3], "bye", "", w>>>> ELSE <<>>, <<>>, FALSE), st |-> St(lg', hk)] @@ s
     [] s.op = "Hook" ->        \* lg[s.i].OnLogLevelActive(s.lvl, setup)
          /\ s.i <= Len(lg) /\ Len(hk) < MaxHooks /\ UNCHANGED <<cfg, lg, cnt, width, shut>>
          /\ LET k0 == Append(hk, <<s.i, s.lvl, FALSE, TRUE>>) IN
